@@ -293,6 +293,12 @@ def gen(rng, idx, tier):
                 simple[0]["anchors"] = [{"name": "top", "x": 200, "y": 600}]
         lib = {"com.github.googlei18n.ufo2ft.filters": [
             {"name": "propagateAnchors", "pre": True}, {"name": "sortContours"}]}
+        if rng.random() < 0.25:
+            # a curve conversion of the user's own that remembers what it did (in the glyph
+            # set's lib - which, not being compiled in place, is not the caller's)
+            lib["com.github.googlei18n.ufo2ft.filters"].append(
+                {"name": "cubicToQuadratic", "pre": rng.random() < 0.5,
+                 "kwargs": {"rememberCurveType": True}})
         ufo = {"glyphs": glyphs, "kerning": [], "groups": {}, "features": "", "lib": lib,
                "info": {"unitsPerEm": 1000, "familyName": "T", "styleName": "R"}}
         kind = "outline"
@@ -322,7 +328,10 @@ def gen(rng, idx, tier):
                 {"class": "DecomposeTransformedComponentsFilter", "options": {"pre": True}},
                 {"class": "TransformationsFilter", "options": {"OffsetX": 10, "pre": True}},
                 {"class": "ReverseContourDirectionFilter", "options": {}},
-                {"class": "FlattenComponentsFilter", "options": {"pre": True}}], rng.randint(1, 2))
+                {"class": "FlattenComponentsFilter", "options": {"pre": True}},
+                {"class": "CubicToQuadraticFilter", "options": {"rememberCurveType": True}},
+                {"class": "CubicToQuadraticFilter", "options": {"rememberCurveType": True, "pre": True}},
+            ], rng.randint(1, 2))
         if not opts_objects:
             opts_objects = None
     return {"kind": kind, "ufo": ufo, "func": func, "opts": opts, "per_lib": partial,
@@ -458,4 +467,20 @@ def classify(v, case):
         variant = v["detail"].get("variant", [None, ""])[1]
         if variant.endswith(("/second", "/after_other")) and v["detail"].get("tables") in (["MATH"],):
             return "math_constants_history_changes_output"
+    variant = v["detail"].get("variant", [None, ""])[1]
+    if (v["mech"] == "digest_differs" and variant.endswith("/inplace") and case.get("func") == "compileTTF"
+            and _user_cu2qu_that_remembers(case)
+            and set(v["detail"].get("tables") or ()) <= {"glyf", "loca", "maxp", "head", "hmtx", "hhea", "OS/2"}):
+        # the built-in conversion writes / consults the curve-type marker only when in place:
+        # the second of the two conversions runs (and reverses the contours again) otherwise
+        return "inplace_changes_output_with_user_cu2qu_filter_that_remembers"
     return None
+
+
+def _user_cu2qu_that_remembers(case):
+    lf = ((case.get("ufo") or {}).get("lib") or {}).get("com.github.googlei18n.ufo2ft.filters") or []
+    if any(f.get("name") == "cubicToQuadratic" and (f.get("kwargs") or {}).get("rememberCurveType")
+           for f in lf):
+        return True
+    return any(d.get("class") == "CubicToQuadraticFilter" and (d.get("options") or {}).get("rememberCurveType")
+               for d in (case.get("opts_objects") or {}).get("filters") or [])
